@@ -406,6 +406,9 @@ def _main(a, seed, t_start):
     from props import bounded as _bounded
     if any(prop in ps for ps in _bounded.SESSION_KINDS.values()) and not a.only:
         extras.append(_bounded.session_history(prop, a.tier, rng))     # the history clause: every call as in a fresh interpreter
+    if prop == 'C16' and thorough and not a.only:
+        from props import bounded_threads as _threads
+        extras.append(_threads.thread_session(prop, a.tier, rng))    # stress run of the thread clause (bounded, probabilistic)
     extra = {'violations': [], 'coverage': {}}
     for e in extras:
         extra['violations'] += e.get('violations', [])
